@@ -22,7 +22,7 @@ PROPS = {
     "C01": {
         "pf": True,
         "n": {"quick": 220, "thorough": 12000},
-        "cone": ["Bytes", "BytesLemmas", "Regex", "Generated", "Channel", "Session", "SessionLemmas", "Replay", "DecideLang", "GeneratedSkel", "WindowSrc", "SendInputSrc", "InteractiveSrcDefs", "PlatformTypes"],
+        "cone": ["Bytes", "BytesLemmas", "Regex", "Generated", "Channel", "Session", "SessionLemmas", "Replay", "DecideLang", "GeneratedSkel", "WindowSrc", "SendInputSrc", "InteractiveSrcDefs", "PlatformTypes", "DecideLemmas", "ReadUntilSrc"],
         "rx": True,
         "kernel_sample": {"quick": 6, "thorough": 20}, "kernel_maxlen": 2500,
         "rule": "generic.Driver SendCommands / SendCommand over the simulated transport and a CLI echo device: prompts drawn from the default "
@@ -158,7 +158,7 @@ PROPS = {
         "pf": True,
         "n": {"quick": 220, "thorough": 6000},
         "compare": "member",
-        "cone": ["Bytes", "Regex", "Generated", "Channel", "Network", "Replay", "SessionLemmas", "Netconf", "NcSession", "NcSessionLemmas", "NcSegLemmas", "NcExtraLemmas", "DecideLang", "GeneratedSkel", "DecideGT", "InteractiveSrcDefs", "SendInputSrc", "BytesLemmas", "ChanTrace", "ChanTraceLemmas", "PlatformTypes", "Session", "RpcSrc"],
+        "cone": ["Bytes", "Regex", "Generated", "Channel", "Network", "Replay", "SessionLemmas", "Netconf", "NcSession", "NcSessionLemmas", "NcSegLemmas", "NcExtraLemmas", "DecideLang", "GeneratedSkel", "DecideGT", "InteractiveSrcDefs", "SendInputSrc", "BytesLemmas", "ChanTrace", "ChanTraceLemmas", "PlatformTypes", "Session", "RpcSrc", "DecideLemmas", "ReadUntilSrc"],
         "rx": True,
         "rule": "CLI sessions (generic SendCommand / GetPrompt / SendInteractive, network SendCommand with an implicit privilege change, AcquirePriv) "
                 "with the device going silent after byte k of the exchange: k from a dry run of the same case, every k of one small exchange "
@@ -179,7 +179,7 @@ PROPS = {
         "pf": True,
         "n": {"quick": 220, "thorough": 6000},
         "compare": "member",
-        "cone": ["Bytes", "Regex", "Generated", "Channel", "Network", "Replay", "SessionLemmas", "Netconf", "NcSession", "NcSessionLemmas", "NcSegLemmas", "NcExtraLemmas", "DecideLang", "GeneratedSkel", "InteractiveSrcDefs", "SendInputSrc", "BytesLemmas", "ChanTrace", "ChanTraceLemmas", "ChannelLemmas", "PlatformTypes", "Session", "RpcSrc"],
+        "cone": ["Bytes", "Regex", "Generated", "Channel", "Network", "Replay", "SessionLemmas", "Netconf", "NcSession", "NcSessionLemmas", "NcSegLemmas", "NcExtraLemmas", "DecideLang", "GeneratedSkel", "InteractiveSrcDefs", "SendInputSrc", "BytesLemmas", "ChanTrace", "ChanTraceLemmas", "ChannelLemmas", "PlatformTypes", "Session", "RpcSrc", "DecideLemmas", "ReadUntilSrc"],
         "rx": True,
         "rule": "the same CLI sessions with the transport reporting end-of-stream / a persistent read error after byte k, or failing a write; the "
                 "model prints every legal outcome of the race between the loss and the operation's consumption of already-queued chunks (the "
@@ -360,7 +360,7 @@ PROPS = {
     "C12": {
         "pf": True,
         "n": {"quick": 240, "thorough": 8000},
-        "cone": ["Bytes", "Regex", "Generated", "Channel", "Network", "ChanTrace", "ChanTraceLemmas", "InteractiveLemmas", "Replay", "DecideLang", "GeneratedSkel", "WindowSrc", "SendInputSrc", "DecideLemmas", "InteractiveSrcDefs", "InteractiveSrc", "InteractiveSrcModel", "InteractiveTie", "BytesLemmas", "PlatformTypes", "Session", "SessionLemmas"],
+        "cone": ["Bytes", "Regex", "Generated", "Channel", "Network", "ChanTrace", "ChanTraceLemmas", "InteractiveLemmas", "Replay", "DecideLang", "GeneratedSkel", "WindowSrc", "SendInputSrc", "DecideLemmas", "InteractiveSrcDefs", "InteractiveSrc", "InteractiveSrcModel", "InteractiveTie", "BytesLemmas", "PlatformTypes", "Session", "SessionLemmas", "ReadUntilSrc"],
         "rx": True,
         "rule": "SendInteractive dialogues (1-5 events, visible/hidden, with/without expected response, completion patterns) against a scripted "
                 "device whose reactions become readable only after a delay (0 / 0.3 / 1.5 ms) so that typing ahead is observable (bytes delivered "
